@@ -29,7 +29,7 @@ HDR_SAFE = """From Coq Require Import ZArith List Bool Reals PrimFloat.
 From FT.lib Require Import Num Arr ArrLemmas NumArr.
 From FT.gen Require Import Common Interp2d Interp3d Vinterp2d Vinterp3d Fteik2d Fteik3d Ray2d Ray3d.
 From FT.proofs Require Import NumFLaws SafetyTools Safety2d SafetyInterp Ray2dProofs.
-From FT.proofs Require Safety3d Ray3dProofs RaySafety2d RaySafety3d.
+From FT.proofs Require Safety3d Ray3dProofs RaySafety2d RaySafety3d SafetySolveTools SafetySolve2d SafetySolve3d.
 Import ListNotations.
 Open Scope Z_scope.
 """
@@ -288,7 +288,7 @@ Open Scope Z_scope.
     },
     "C03": {
         "title": "Solver total and sane: what is proved about the generated solver for all inputs (raise contract, shapes, 2D non-negativity in exact arithmetic); finite / bounded / zero-only-at-source and 3D non-negativity are examined on the implementation",
-        "header": HDR_G.format(imports="From Coq Require Import Reals.\nFrom FT.proofs Require Import Sweep2dProofs Sweep3dProofs Solve2dProofs Solve3dProofs.\nFrom FT.proofs Require OperatorsR NonNeg2d Pos2d."),
+        "header": HDR_G.format(imports="From Coq Require Import Reals.\nFrom FT.proofs Require Import Sweep2dProofs Sweep3dProofs Solve2dProofs Solve3dProofs.\nFrom FT.proofs Require OperatorsR NonNeg2d Pos2d NonNeg3d."),
         "theorems": [
             ("solve2d_raises_iff_source_outside", "Solve2dProofs.fteik2d_raises_iff", "the 2D solver raises ValueError exactly when the code's own domain test fails (comparisons as written: a NaN coordinate fails it) and otherwise returns; every numeric instance"),
             ("solve3d_raises_iff_source_outside", "Solve3dProofs.fteik3d_raises_iff", "3D"),
@@ -304,6 +304,13 @@ Open Scope Z_scope.
             ("solve2d_zero_iff_source_node", "Pos2d.fteik2d_zero_iff_source", "positive slowness: a returned traveltime is 0 exactly at the node where the solver's own frame puts the source (i_zsa, i_xsa: the source in grid units, snapped to a node when within eps); every other node is > 0"),
             ("solve2d_at_most_one_zero", "Pos2d.fteik2d_at_most_one_zero", "at most one node holds 0"),
             ("solve2d_zero_near_source", "Pos2d.fteik2d_zero_near_source", "in terms of the inputs only: a zero node is within 1e-15 of a cell of the given source"),
+            ("node_update_3d_value", "NonNeg3d.sweep_tt_eq_guarded", "tie: the generated 3D node update writes node_value true = min(t0, 1D, 2D, guarded 8-point candidate), every numeric instance"),
+            ("node_update_nonneg_3d", "NonNeg3d.sweep_nonneg_3d", "one 3D node update keeps every traveltime >= 0, all spacings (the 8-point candidate is discarded when earlier than the diagonally opposite corner: fix 7b708d7)"),
+            ("pass_nonneg_3d", "NonNeg3d.sweep3d_nonneg", "a whole 3D pass"),
+            ("solve3d_nonneg", "NonNeg3d.fteik3d_nonneg_get", "every traveltime returned by the 3D solver is >= 0, and the reported source-cell slowness, for every model with non-negative slowness, positive spacings, every source, nsweep and flag"),
+            ("eight_point_unguarded_negative_iff_noncubic", "NonNeg3d.op3_negative_iff_noncubic", "record of the defect repaired by 7b708d7: the UNGUARDED 8-point operator admits non-negative neighbour times passing its own test with a negative result exactly when the three spacings are not all equal"),
+            ("node_update_unguarded_refuted", "NonNeg3d.node_unguarded_refuted", "node-level witness over R for the pre-fix update: dz = dy = 1, dx = 1/2 writes -3/10"),
+            ("eight_point_guard_noop_cubic", "NonNeg3d.t3d_guard_noop_cubic", "on cubic cells the guarded and the unguarded node values coincide: the fix changes nothing there"),
         ],
         "examples": [],
     },
@@ -392,6 +399,14 @@ Open Scope Z_scope.
             ("ray_ok_binary64_3d", "RaySafety3d.ray3d_core_ok_true_F", "3D"),
             ("ray_axis_min_needed", "RaySafety2d.ray2d_core_ok_axis_min_refuted", "axis_min is needed in grid-honouring mode: with z = [0; -2^-30; 1] the magnetism snaps below z[0] and z[-1] is read (witness by vm_compute; such an axis is never produced by the API, whose axes ascend)"),
             ("ray_max_step_0_refuted", "RaySafety2d.ray2d_core_ok_max_step_0_refuted", "max_step >= 1 is needed: a zero-row buffer is written at row 0"),
+            ("solve2d_ok", "SafetySolve2d.fteik2d_ok_true", "the WHOLE 2D solver (domain test, source cell lookup, both initialisation branches with all four loops and the admissibility guards, nsweep passes, gradient assembly) performs only in-range accesses, for every model with >= 1 cell per axis, positive spacings, every source (an outside source raises before any access), nsweep and flag - for every numeric instance satisfying TruncLaws (truncation of a non-negative quotient is non-negative; the rounded quotient of an in-domain source is a node index)"),
+            ("solve2d_ok_reals", "SafetySolve2d.fteik2d_ok_true_R", "the real-number instance satisfies TruncLaws"),
+            ("solve3d_ok", "SafetySolve3d.fteik3d_ok_true", "the whole 3D solver, every numeric instance satisfying TruncDivLaw"),
+            ("solve3d_ok_binary64", "SafetySolve3d.fteik3d_ok_true_F", "binary64 satisfies TruncDivLaw (NaN and infinities included): the 3D statement is unconditional for the floats the code runs on"),
+            ("trunc_div_law_binary64", "SafetySolveTools.TruncDivLawF", "the law itself"),
+            ("on_node_branch_needs_bounded_grid", "SafetySolveTools.trunc_round_div_range_F_needs_bound", "for binary64 the second law (2D on-node branch tt[int(zsa), int(xsa)] = 0) is false without a bound on the number of cells: n = 2^53+3, d = 1, z = 2^53+4 passes the domain test and indexes node n+1 (witness by vm_compute; such grids do not fit in memory; the law for n <= 2^51 is not proved = the one open obligation of the 2D float statement)"),
+            ("sign_invariant_3d", "SafetySolve3d.sweep3d_preserves_tinv3", "3D gradient bookkeeping invariant through every pass"),
+            ("gradient_assembly_ok_3d", "SafetySolve3d.fteik3d_p1_ok_true", "3D gradient assembly reads in range under it"),
         ],
         "examples": [],
     },
